@@ -87,8 +87,89 @@ def impl_member(rule_hex, host_hex):
     return FACTS[(rule_hex, rule_hex, host_hex)]["ma"] == "1"
 
 
+SEQ_OPS = {"pollseq": "poll", "urlseq": "url", "urlseqfull": "urlfull"}
+SEQ_SIDE = {"pollseq": "broker", "urlseq": "proxy", "urlseqfull": "proxy"}
+
+
+def seq_steps(line, impl, model):
+    """A history line taken apart: -> list of (single-shot case line for that request ALONE, implementation's
+    answer to the request inside the history, model's answer, position), or a string when the answers cannot be
+    aligned with the requests.  Re-installations of the broker patterns are consumed here (they change the
+    configuration the following single-shot lines carry)."""
+    a = line.split(" ")
+    op = a[1]
+    evs = a[4].split(",")
+    sep = " | " if op == "urlseqfull" else ","
+    ri, rm = impl.split(sep), model.split(",")
+    if impl.startswith("!") or len(ri) != len(evs) or len(rm) != len(evs):
+        return "history of %d requests answered with: %s" % (len(evs), impl[:300])
+    out = []
+    if op == "pollseq":
+        al, pr = a[2], a[3]
+        for i, (ev, r, m) in enumerate(zip(evs, ri, rm)):
+            if ev[0] == "c":
+                al, pr = ev[1:].split(";")
+                if r != "installed":
+                    return "re-installation of the patterns answered with: " + r[:200]
+                continue
+            out.append(("%s poll %s %s %s %s" % (AREA, al, pr, ev[0], ev[1:] if ev[0] == "s" else "x"), r, m, i))
+    else:
+        for i, (ev, r, m) in enumerate(zip(evs, ri, rm)):
+            out.append(("%s %s %s %s %s" % (AREA, SEQ_OPS[op], a[2], a[3], ev.replace(";", " ")), r, m, i))
+    return out
+
+
+def show_history(line, upto):
+    a = line.split(" ")
+    evs = a[4].split(",")[:upto]
+    def one(ev):
+        if a[1] == "pollseq":
+            if ev[0] == "s":
+                return "poll(pattern=%r)" % unhx(ev[1:])
+            if ev[0] == "c":
+                return "install(allowed=%r, presumed=%r)" % tuple(unhx(x) for x in ev[1:].split(";"))
+            return {"l": "poll(legacy)", "n": "poll(legacy, null field)"}[ev]
+        return repr(unhx(ev.split(";")[0]))
+    return "[" + ", ".join(one(e) for e in evs) + "]"
+
+
+# Fresh single-shot runs of a request that failed inside a history (to tell a history-dependent decision
+# from one that is wrong on its own); EXES is filled by run()/replay().
+EXES = {}
+FRESH = {}
+
+
+def fresh_answer(single):
+    if single in FRESH:
+        return FRESH[single]
+    if len(FRESH) >= 60:
+        return None
+    op = single.split(" ")[1]
+    exe = EXES.get("br" if op == "poll" else "px")
+    res = None
+    if exe:
+        rc, out, err = vlib.run_impl(exe, [single], args=TEST_ARGS)
+        if rc == 0 and len(out) == 1:
+            res = out[0]
+            if "nm" in EXES:
+                ensure_facts(EXES["nm"], dialled_hosts(single, res))
+    FRESH[single] = res
+    return res
+
+
 def facts_needed(line):
     a = line.split(" ")
+    if a[1] == "pollseq":
+        al, need = a[2], []
+        pr = a[3]
+        for ev in a[4].split(","):
+            if ev[0] == "c":
+                al, pr = ev[1:].split(";")
+            else:
+                need.append((ev[1:] if ev[0] == "s" else pr, al, "x"))
+        return need
+    if a[1] in ("urlseq", "urlseqfull"):
+        return [(a[2], a[2], ev.split(";")[3]) for ev in a[4].split(",") if ev.split(";")[1] == "P"]
     if a[1] == "poll":
         eff = a[5] if a[4] == "s" else a[3]
         return [(eff, a[2], "x")]
@@ -103,6 +184,18 @@ def prop(line, impl, model):
     op = a[1]
     if impl.startswith("!panic") or impl == "!died":
         return "implementation panicked/died: " + impl[:300]
+    if op in SEQ_OPS:
+        # every request of the history is judged as if it were alone: C06 quantifies over histories, and the
+        # single-request reading of the property does not mention earlier requests
+        st = seq_steps(line, impl, model)
+        if isinstance(st, str):
+            return st
+        for single, r, m, i in st:
+            bad = prop(single, r, m)
+            if bad:
+                return ("request %d of a history on one long-lived %s: %s; earlier requests: %s"
+                        % (i + 1, {"broker": "broker context", "proxy": "proxy"}[SEQ_SIDE[op]], bad, show_history(line, i)))
+        return None
     if op in ("sup", "nm"):
         f = fields(impl)
         if not {"sup", "ma", "mb"} <= set(f):
@@ -175,6 +268,17 @@ def prop(line, impl, model):
 def key_of(line, impl, model):
     a = line.split(" ")
     op = a[1]
+    if op in SEQ_OPS:
+        st = seq_steps(line, impl, model)
+        if isinstance(st, str):
+            return SEQ_SIDE[op] + "-history-irregular"
+        for single, r, m, i in st:
+            if prop(single, r, m):
+                fr = fresh_answer(single)
+                if fr is not None and prop(single, fr, m) is None:
+                    return SEQ_SIDE[op] + "-decision-depends-on-history"
+                return key_of(single, r, m)
+        return SEQ_SIDE[op] + "-history-irregular"
     if op in ("sup", "nm"):
         return "member-semantics" if "documented meaning" in (prop(line, impl, model) or "") else "superset-unsound"
     if op == "poll":
@@ -337,6 +441,118 @@ def gen_urls(ctx):
     return out
 
 
+def utf8_ok(b):
+    try:
+        b.decode("utf-8")
+        return True
+    except UnicodeDecodeError:
+        return False
+
+
+def dedupe(xs):
+    out = []
+    for x in xs:
+        if x not in out:
+            out.append(x)
+    return out
+
+
+SEQ_CFGS = [(b"snowflake.torproject.net$", b"snowflake.bamsoftware.com$"), (b"snowflake.torproject.net$", b"torproject.net$"),
+            (b"^snowflake.torproject.net$", b"^02.snowflake.torproject.net$"), (b"snowflake.torproject.net$", b""),
+            (b"$", b"net$"), (b"torproject.net$", b"^torproject.net$"), (b"^snowflake.torproject.net$", b"snowflake.torproject.net$")]
+
+
+def gen_pollseq(ctx):
+    """histories for ONE broker context: polls of all kinds (and re-installations of the patterns) in sequence"""
+    rng, thorough = ctx.rng, ctx.tier == "thorough"
+    lines, kinds = [], []
+    def add(al, pr, evs, kind):
+        lines.append("%s pollseq %s %s %s" % (AREA, hx(al), hx(pr), ",".join(evs)))
+        kinds.append(kind)
+    def pats_around(al, pr):
+        suf = new_matcher(al)[1]
+        return [p for p in dedupe([b"", al, pr, b"$", suf[1:] + b"$", b"x" + al, b"^$", b"^" + suf + b"$"]) if utf8_ok(p)]
+    # (a) does one earlier poll change the answer to a later one? all ordered pairs of a pool, as [a, b, a]
+    cfgs = list(SEQ_CFGS)
+    for _ in range(2 if not thorough else 12):
+        h = rand_host(rng)
+        cfgs.append((rule_from(rng, h), rule_from(rng, h)))
+    for al, pr in cfgs:
+        pool = ["l", "n"] + ["s" + hx(p) for p in pats_around(al, pr)]
+        for x in pool:
+            for y in pool:
+                if x != y:
+                    add(al, pr, [x, y, x], "pollseq-pairwise-interference")
+        # ... and does the answer follow a re-installation of the patterns (and back)?
+        for nal, npr in ((pr, al), (b"x" + al, pr), (al, b"x" + pr)):
+            for x in pool:
+                add(al, pr, [x, "c%s;%s" % (hx(nal), hx(npr)), x, "c%s;%s" % (hx(al), hx(pr)), x], "pollseq-reinstall-interference")
+    # (b) random histories, some with re-installations
+    for _ in range(300 if not thorough else 4000):
+        if rng.random() < 0.5:
+            al, pr = rng.choice(SEQ_CFGS) if rng.random() < 0.6 else (rng.choice(POLL_POOL), rng.choice(POLL_POOL))
+        else:
+            h = rand_host(rng)
+            al, pr = rule_from(rng, h), rule_from(rng, h)
+        h = new_matcher(al)[1] or b"a.b"
+        cand = pats_around(al, pr) + [p for p in (rule_from(rng, h) for _ in range(3)) if utf8_ok(p)] + [rng.choice(POLL_POOL)]
+        pool = [b""] + rng.sample(cand, rng.randrange(2, 5))
+        reinstall = rng.random() < 0.25
+        evs = []
+        for _ in range(rng.randrange(4, 13)):
+            if reinstall and evs and rng.random() < 0.2:
+                r = rng.random()
+                nal, npr = (pr, al) if r < 0.3 else (al, rng.choice(pool)) if r < 0.6 else (rng.choice(pool), pr) if r < 0.8 else (al, pr)
+                evs.append("c%s;%s" % (hx(nal), hx(npr)))
+                continue
+            k = rng.choice("ssssslln")
+            evs.append("s" + hx(rng.choice(pool)) if k == "s" else k)
+        add(al, pr, evs, "pollseq-random-history" + ("-with-reinstall" if any(e[0] == "c" for e in evs) else ""))
+    return lines, kinds
+
+
+def offers_around(pat):
+    suf = new_matcher(pat)[1] or b"relay.example"
+    us = [b"", b"%zz"]
+    for h in (suf, b"01." + suf, b"evil.com"):
+        for sch in (b"wss", b"ws", b"https"):
+            us.append(sch + b"://" + h + b"/")
+    us += [b"wss://" + suf + b":443/", b"ws://" + suf + b":443/", b"WSS://" + suf + b"/", b"ws://" + suf + b"/p?q=1"]
+    return us
+
+
+def gen_urlseq(ctx):
+    """histories for ONE proxy: -> list of (op, pattern, allow, [raw relay URLs], kind)"""
+    rng, thorough = ctx.rng, ctx.tier == "thorough"
+    seqs = []
+    # (a) does one earlier relay URL change the decision on a later one? all ordered pairs, as [a, b, a]
+    for pat in URL_PATTERNS[:2] if not thorough else URL_PATTERNS[:6]:
+        for allow in "01":
+            us = offers_around(pat)
+            if not thorough and (allow == "1" or pat != URL_PATTERNS[0]):
+                us = [u for u in us if u.split(b"://")[-1].startswith(new_matcher(pat)[1])]      # same host[:port], all schemes
+            for x in us:
+                for y in us:
+                    if x != y:
+                        seqs.append(("urlseq", pat, allow, [x, y, x], "urlseq-pairwise-interference"))
+    # (b) random histories: few hosts, several schemes and ports, repeats
+    pool_all = url_pool()
+    for n in range(120 if not thorough else 2000):
+        pat = rng.choice(URL_PATTERNS[:5] + [rng.choice(URL_PATTERNS)])
+        cand = offers_around(pat) + [rng.choice(pool_all), mutate(rng, rng.choice(offers_around(pat)[2:]))]
+        pool = rng.sample(cand, rng.randrange(3, 7))
+        seqs.append(("urlseq", pat, rng.choice("001"), [rng.choice(pool) for _ in range(rng.randrange(4, 11))], "urlseq-random-history"))
+    # (c) the same with the data channel opened and the relay dial observed, per session
+    for n in range(16 if not thorough else 200):
+        pat = rng.choice(URL_PATTERNS[:4])
+        suf = new_matcher(pat)[1] or b"relay.example"
+        h = rng.choice([suf, b"01." + suf])
+        pool = [sch + b"://" + h + tail for sch in (b"wss", b"ws") for tail in (b"/", b":443/")] + [b"wss://evil.com/", b""]
+        seqs.append(("urlseqfull", pat, rng.choice("001"), [rng.choice(pool) for _ in range(rng.randrange(3, 6))],
+                     "urlseq-random-history-dial-monitored"))
+    return seqs
+
+
 def run(ctx):
     os.environ["VERIF_DRIVER"] = "1"
     ctx.assumptions += [
@@ -344,8 +560,11 @@ def run(ctx):
         "url.Parse / URL.Hostname / encoding/json are library boundaries: the scheme and hostname of each relay URL are "
         "computed by the Go library (driver op urlparse) and handed to the model; the proxy driver re-checks them",
         "the websocket dial is observed at gorilla's Dialer.Proxy callback (scheme+host of the request about to be sent) and aborted there",
-        "'never gives a rejected proxy a client' is covered here for the sequential history poll -> client offer; "
-        "all concurrent histories belong to the broker interleaving model (C02-C04)"]
+        "'never gives a rejected proxy a client' is covered here for sequential histories (poll -> client offer, repeated "
+        "on one broker context: ops pollseq); all concurrent histories belong to the broker interleaving model (C02-C04)",
+        "histories: one long-lived BrokerContext per pollseq line (polls of all kinds and InstallBridgeListProfile "
+        "re-installations in sequence) and one long-lived SnowflakeProxy per urlseq/urlseqfull line (one session per "
+        "broker-supplied relay URL); every answer is compared with the model's history-free decision for that request alone"]
     ctx.trusted.append("scripted broker RoundTripper and pion client in harness/overlay/proxy/lib/zz_verif_c06_test.go; "
                        "poll/offer/answer choreography in harness/overlay/broker/zz_verif_c06_test.go")
     # (i) exported namematcher API
@@ -354,15 +573,30 @@ def run(ctx):
     ctx.correspond(exe_nm, lines, kinds, label="namematcher-api", prop=prop, key_of=key_of)
     # (ii) broker decision through IPC.ProxyPolls
     exe_br = vlib.go_test_build("./broker")
+    exe_px = vlib.go_test_build("./proxy/lib")
+    EXES.update(nm=exe_nm, br=exe_br, px=exe_px)
     lines, kinds = gen_poll(ctx)
     ensure_facts(exe_nm, [t for l in lines for t in facts_needed(l)])
     ctx.correspond(exe_br, lines, kinds, label="broker-proxypolls", prop=prop, key_of=key_of, impl_args=TEST_ARGS)
+    # (ii') histories on one broker context
+    lines, kinds = gen_pollseq(ctx)
+    ensure_facts(exe_nm, [t for l in lines for t in facts_needed(l)])
+    ctx.correspond(exe_br, lines, kinds, label="broker-proxypolls-history", prop=prop, key_of=key_of, impl_args=TEST_ARGS)
+    ctx.extra["broker_polls_in_histories"] = sum(1 for l in lines for e in l.split(" ")[4].split(",") if e[0] != "c")
     # (iii) proxy decision: library boundary first, then runSession / datachannelHandler
-    exe_px = vlib.go_test_build("./proxy/lib")
     urls = gen_urls(ctx)
-    rc, parsed, err = vlib.run_impl(exe_nm, ["%s urlparse %s" % (AREA, hx(u)) for u, _, _ in urls])
-    if rc != 0 or len(parsed) != len(urls):
+    seqs = gen_urlseq(ctx)
+    seq_raws = sorted({u for _, _, _, us, _ in seqs for u in us})
+    rc, parsed, err = vlib.run_impl(exe_nm, ["%s urlparse %s" % (AREA, hx(u)) for u in [x for x, _, _ in urls] + seq_raws])
+    if rc != 0 or len(parsed) != len(urls) + len(seq_raws):
         raise RuntimeError("urlparse driver failed: " + err[-300:])
+    offer_of = {u: p.replace(" ", ";") for u, p in zip(seq_raws, parsed[len(urls):])}       # "<raw>;E" | "<raw>;P;<scheme>;<host>"
+    parsed = parsed[:len(urls)]
+    hcheap, hckinds, hfull, hfkinds = [], [], [], []
+    for op, pat, allow, us, kind in seqs:
+        l = "%s %s %s %s %s" % (AREA, op, hx(pat), allow, ",".join(offer_of[u] for u in us))
+        (hfull if op == "urlseqfull" else hcheap).append(l)
+        (hfkinds if op == "urlseqfull" else hckinds).append(kind)
     cheap, ckinds, full, fkinds = [], [], [], []
     rng = ctx.rng
     for (u, ukind, pats), p in zip(urls, parsed):
@@ -378,6 +612,11 @@ def run(ctx):
     if cheap:       # decision only (no data channel): thorough tier; every case is also run with the dial monitor below
         ctx.correspond(exe_px, cheap, ckinds, label="proxy-runSession", prop=prop, key_of=key_of, impl_args=TEST_ARGS)
     correspond_full(ctx, exe_px, exe_nm, full, fkinds)
+    # (iii') histories on one proxy
+    ensure_facts(exe_nm, [t for l in hcheap + hfull for t in facts_needed(l)])
+    ctx.correspond(exe_px, hcheap, hckinds, label="proxy-runSession-history", prop=prop, key_of=key_of, impl_args=TEST_ARGS)
+    correspond_full(ctx, exe_px, exe_nm, hfull, hfkinds, label="proxy-dial-history")
+    ctx.extra["proxy_sessions_in_histories"] = sum(len(l.split(" ")[4].split(",")) for l in hcheap + hfull)
 
 
 def full_class(impl):
@@ -394,20 +633,28 @@ def full_class(impl):
 
 
 def dialled_hosts(line, impl):
+    if line.split(" ")[1] == "urlseqfull":
+        return [t for r in impl.split(" | ") for t in dialled_hosts("%s urlfull %s" % (AREA, line.split(" ")[2]), r)]
     d = fields(impl).get("dial", "none")
     if d == "none" or "," not in d:
         return []
     return [(line.split(" ")[2], line.split(" ")[2], x.split(",")[1]) for x in d.split(";")]
 
 
-def correspond_full(ctx, exe, exe_nm, lines, kinds):
+def full_agrees(m, r):
+    c = full_class(r)
+    ok = (c == m) if c is not None else m.startswith("proceed")
+    return ok and " dial=" in r
+
+
+def correspond_full(ctx, exe, exe_nm, lines, kinds, label="proxy-dial"):
     model = vlib.run_model(lines)
     rc, impl, err = vlib.run_impl(exe, lines, args=TEST_ARGS)
     ensure_facts(exe_nm, [t for l, r in zip(lines, impl) for t in dialled_hosts(l, r)])
     if rc != 0 or len(impl) != len(lines):
         idx = len(impl)
         ctx.violation("driver-crash", "implementation driver died (rc=%s) at case %d: %s" % (rc, idx, err[-600:]),
-                      dict(label="proxy-dial", case=lines[idx] if idx < len(lines) else None, stderr=err[-2000:]))
+                      dict(label=label, case=lines[idx] if idx < len(lines) else None, stderr=err[-2000:]))
         impl = impl + ["!died"] * (len(lines) - len(impl))
     ndis = 0
     for l, k, m, r in zip(lines, kinds, model, impl):
@@ -416,22 +663,25 @@ def correspond_full(ctx, exe, exe_nm, lines, kinds):
             raise RuntimeError("model rejected case line: " + l[:200])
         bad = prop(l, r, m)
         if bad:
-            ctx.violation(key_of(l, r, m), bad, dict(label="proxy-dial", case=l[:20000], impl=r[:4000], model=m[:4000]))
+            ctx.violation(key_of(l, r, m), bad, dict(label=label, case=l[:20000], impl=r[:4000], model=m[:4000]))
             continue
-        c = full_class(r)
-        ok = (c == m) if c is not None else m.startswith("proceed")
-        if not ok or " dial=" not in r:
+        if l.split(" ")[1] == "urlseqfull":       # prop() has checked that the answers align with the requests
+            ok = all(full_agrees(sm, sr) for _, sr, sm, _ in seq_steps(l, r, m))
+        else:
+            ok = full_agrees(m, r)
+        if not ok:
             ndis += 1
             if ndis <= 5:
-                ctx.not_shown("correspondence proxy-dial: model and implementation disagree on case `%s`: model=%s impl=%s; "
-                              "the property predicate found no failure on it" % (l[:500], m[:300], r[:300]))
+                ctx.not_shown("correspondence %s: model and implementation disagree on case `%s`: model=%s impl=%s; "
+                              "the property predicate found no failure on it" % (label, l[:500], m[:300], r[:300]))
     short = [(l, m) for l, m in zip(lines, model) if len(l) < 400]
     ctx.rng.shuffle(short)
     bad = vlib.coq_crosscheck(short[:40])
     ctx.extra["vm_compute_crosschecked"] = ctx.extra.get("vm_compute_crosschecked", 0) + len(short[:40])
     for i in bad:
         ctx.not_shown("extraction cross-check: vm_compute and extracted runner differ on `%s`" % short[i][0][:300])
-    ctx.extra["relay_dials_observed"] = sum(1 for r in impl if " dial=" in r and " dial=none" not in r)
+    ctx.extra["relay_dials_observed"] = ctx.extra.get("relay_dials_observed", 0) + sum(
+        1 for r in impl for x in r.split(" | ") if " dial=" in x and " dial=none" not in x)
 
 
 def replay(ctx, doc):
@@ -445,7 +695,7 @@ def replay(ctx, doc):
         op = case.split(" ")[1]
         if op in ("sup", "nm"):
             exe, args = exes.setdefault("nm", vlib.go_build("./zz_verif/namematcher")), ()
-        elif op == "poll":
+        elif op in ("poll", "pollseq"):
             exe, args = exes.setdefault("br", vlib.go_test_build("./broker")), TEST_ARGS
         else:
             exe, args = exes.setdefault("px", vlib.go_test_build("./proxy/lib")), TEST_ARGS
@@ -453,7 +703,8 @@ def replay(ctx, doc):
         rc, r, err = vlib.run_impl(exe, [case], args=args)
         r = r[0] if r else "!died"
         exe_nm = exes.setdefault("nm", vlib.go_build("./zz_verif/namematcher"))
-        ensure_facts(exe_nm, facts_needed(case) + (dialled_hosts(case, r) if op == "urlfull" else []))
+        EXES.update(exes)
+        ensure_facts(exe_nm, facts_needed(case) + (dialled_hosts(case, r) if op in ("urlfull", "urlseqfull") else []))
         p = prop(case, r, m)
         print("case: %s\n model: %s\n impl:  %s\n property: %s" % (case[:300], m[:300], r[:300], p or "holds"))
         bad += 1 if p else 0
